@@ -503,6 +503,7 @@ def option_events(M, seed):
         add(1, g, {g: below}, True, "salt_size:below_min:num")
         add(2, g, {g: below}, False, "salt_size:below_min:num")
         add(2, g, {g: str(inside)}, False, "salt_size:inside:str")
+        add(2, g, {g: inside + 0.5}, False, "salt_size:inside:float")
         add(2, g, {"default_salt_size": inside}, False, "default_salt_size:inside:num")
         add(2, g, {"default_salt_size": inside, "salt_size": inside}, False, "salt_size+default_salt_size:both:num")
         add(3, g, {g: str(below)}, True, "salt_size:below_min:str")
